@@ -360,14 +360,20 @@ def run(ctx):
             full = [(("init",), None, False)] + [(P(j), None, False) for j in range(su.nparts)]
             hists = []
             # every / sampled kill point of each step (with torn variants)
-            pts = range(n_init + 1) if ctx.thorough else sorted(rng.sample(range(n_init + 1), min(6, n_init + 1)))
+            pts = range(n_init + 1) if ctx.thorough else sorted(set(rng.sample(range(n_init + 1), min(6, n_init + 1))) |
+                                                                   {n_init - 1, n_init - 2})
             for k in pts:
-                hists.append(("kill init", [(("init",), k, rng.random() < 0.4), (P(0), None, False), (("finalise",), None, False)]))
+                hists.append(("kill init", [(("init",), k, rng.random() < 0.4)] + [(P(j), None, False) for j in range(su.nparts)] +
+                              [(("finalise",), None, False)]))
             j0 = rng.randrange(su.nparts)
             pts = range(n_p[j0] + 1) if ctx.thorough else sorted(rng.sample(range(n_p[j0] + 1), min(10, n_p[j0] + 1)))
             for k in pts:
                 hists.append(("kill partition", [(("init",), None, False)] + [(P(j), None, False) for j in range(su.nparts) if j != j0] +
                               [(P(j0), k, rng.random() < 0.5), (("finalise",), None, False)]))
+            # a partition that already completed is run again and killed (torn last write), then finalise is issued
+            pts = range(1, n_p[j0] + 2) if ctx.thorough else sorted(rng.sample(range(1, n_p[j0] + 2), min(8, n_p[j0] + 1)))
+            for k in pts:
+                hists.append(("kill partition rerun", full + [(P(j0), k, True), (("finalise",), None, False)]))
             for k in range(n_fin + 1):
                 for torn in (False, True):
                     hists.append(("kill finalise", full + [(("finalise",), k, torn), (P(j0), None, False), (("finalise",), None, False)]))
